@@ -81,13 +81,17 @@ CALL_GUARD = 3000
 class Fun:
     """The harness's user functions as picklable callables (they may travel to worker processes)."""
 
-    def __init__(self, kind, dim, sign=1.0):
-        self.kind, self.dim, self.sign = kind, dim, sign
+    def __init__(self, kind, dim, sign=1.0, out_kind="float"):
+        self.kind, self.dim, self.sign, self.out_kind = kind, dim, sign, out_kind
         self.a = array([0.3 + 0.4 * i for i in range(dim)])
         self.c = array([1.0 + 0.5 * i for i in range(dim)])
 
     def __call__(self, x):
         k, dim, sign = self.kind, self.dim, self.sign
+        if k in ("f_rosen", "f_quad") and self.out_kind != "float":
+            # the same scalar objective returned as a 0-d array or as an array of size 1
+            v = Fun(k, dim, sign)(x)
+            return array(v) if self.out_kind == "0d" else array([v])
         if k == "f_rosen":
             return sign * float(sum(10.0 * (x[1:] - x[:-1] ** 2) ** 2 + (1 - x[:-1]) ** 2))
         if k == "df_rosen":
@@ -192,7 +196,7 @@ def build_problem(cfg, plan, clock, ctx):
         return p, tracked
     p = OptimizationProblem(ds)
     rosen = cfg["objective"] == 1 and dim >= 2
-    f = Fun("f_rosen" if rosen else "f_quad", dim, sign)
+    f = Fun("f_rosen" if rosen else "f_quad", dim, sign, out_kind=cfg.get("f_kind", "float"))
     df = Fun("df_rosen" if rosen else "df_quad", dim, sign)
     tf = tracked["f"] = Tracked("f", f, plan, clock, ctx, "f")
     tdf = tracked["df"] = Tracked("df", df, {**plan, "nan": {}, "raise": {}}, clock, ctx, "df")
@@ -225,6 +229,8 @@ def draw(ctx, focus="C03"):
     is_doe = t.flag(0.3 if focus == "C03" else 0.6, "doe")
     cfg = {"doe": is_doe, "dim": t.randint(1, 3, "dim"), "objective": t.choice(2, "objective"), "maximize": t.flag(0.2, "maximize"),
            "ub": 2.0, "x0": t.pick([0.5, -1.0, 1.5], "x0"), "integer": False, "linear": False}
+    cfg["f_kind"] = ["float", "0d", "size1"][t.weighted([6, 2, 2], "objective_return_kind")]
+    cfg["progress_bar"] = t.flag(0.3, "progress_bar")
     cfg["ineq"] = t.weighted([3, 3, 2], "ineq")
     cfg["eq"] = t.flag(0.25, "eq")
     cfg["user_jac"] = t.flag(0.75, "user_jac")
@@ -299,7 +305,7 @@ def run_driver(ctx, focus):
     if focus == "C04" and t.flag(0.4, "record_nan"):
         problem.stop_if_nan = False  # NaN values are then recorded in the history
         cfg["stop_if_nan"] = False
-    settings = {"enable_progress_bar": False}
+    settings = {"enable_progress_bar": bool(cfg.get("progress_bar"))}
     fac = dfac if cfg["doe"] else of
     lib_name = algo
     if not cfg["doe"]:
